@@ -10,6 +10,8 @@ from __future__ import annotations
 
 from typing import Any, Callable
 
+_CB_LABEL = [None]   # label of the communication future whose callbacks are running
+
 
 class BaseFuture:
     def __init__(self, owner: int | None = None):
@@ -32,14 +34,19 @@ class BaseFuture:
         return self._value
 
     def wait(self):
+        from .distributed import _sim_block_until, _sim_log_wait
         if not self._done:
-            from .distributed import _sim_block_until
             _sim_block_until(lambda: self._done, ('future', self._label))
+        _sim_log_wait(self._label)
         return self.value()
 
     def set_result(self, v):
         if self._done:
             raise RuntimeError('Future already completed')
+        if self._label is None:
+            # a user-created future completed from a communication callback
+            # (bucket sub-futures) belongs to that collective
+            self._label = _CB_LABEL[0]
         self._value = v
         self._done = True
         self._fire()
@@ -52,9 +59,15 @@ class BaseFuture:
     def _fire(self):
         from .distributed import _sim_as_rank
         cbs, self._cbs = self._cbs, []
-        for cb in cbs:
-            with _sim_as_rank(self._owner):
-                cb(self)
+        old = _CB_LABEL[0]
+        if self._label is not None:
+            _CB_LABEL[0] = self._label
+        try:
+            for cb in cbs:
+                with _sim_as_rank(self._owner):
+                    cb(self)
+        finally:
+            _CB_LABEL[0] = old
 
     def add_done_callback(self, cb):
         if self._done:
@@ -65,6 +78,8 @@ class BaseFuture:
     def then(self, cb):
         child = Future(owner=self._owner)
         child._label = self._label
+        if self._label is None:
+            child._inherit = self
 
         def run(parent):
             try:
